@@ -1,0 +1,23 @@
+//go:build verif
+
+// Contracts for package ansi (highlight formatter; read by /verif/gocv; comment-only effect with
+// the verif tag off).
+
+package ansi
+
+// ---------------------------------------------------------------------------
+// C19: formatting a fragment never slices the stored value out of range: every piece it takes lies
+// inside the fragment [f.Start, f.End], whatever the term locations are (nil entries, other array
+// positions, overlapping or unordered locations, locations crossing the fragment end)
+// ---------------------------------------------------------------------------
+
+//@ assume func search.ArrayPositions.Equals(ap, other)
+//@   pure
+
+// a fragment of its stored value; a location is a (possibly empty) range Start <= End
+//@ spec fragOK(f *highlight.Fragment) bool = f != nil && 0 <= f.Start && f.Start <= f.End && f.End <= len(f.Orig)
+//@ func FragmentFormatter.Format
+//@   props C19
+//@   mode int
+//@   requires a != nil && fragOK(f) && forall(k, 0, len(orderedTermLocations), implies(orderedTermLocations[k] != nil, orderedTermLocations[k].Start <= orderedTermLocations[k].End))
+//@   loop 0: invariant f.Start <= curr && curr <= f.End
